@@ -947,7 +947,8 @@ def _witnessed_by_flag(fm: FuncModel, loop, c, tb, prog_nodes: set[int]) -> bool
                     falses = [x for x in fm.cfg.nodes if x.kind == "stmt" and isinstance(x.ast, ast.Assign) and len(x.ast.targets) == 1
                               and isinstance(x.ast.targets[0], ast.Name) and x.ast.targets[0].id == name and is_false(x.ast.value)]
                     hdr_ = fm.cfg.loop_header[loop]
-                    if d.id in fm.cfg.loop_nodes[loop] and hdr_.id in fm.cfg.reach_avoiding(d, falses):
+                    if d.id in fm.cfg.loop_nodes[loop] and hdr_.id in fm.cfg.reach_avoiding(d, falses) \
+                            and tnode.id in fm.cfg.reach_avoiding(hdr_, falses):
                         ok = False
                         break
                     free_before = d.id in _within(fm, loop, tb, prog_nodes)
@@ -1013,6 +1014,32 @@ def _progress_nodes(ck, fm: FuncModel, loop) -> tuple[set[int], set[str]]:
                     if not resets:
                         out.add(n.id)
                         kinds.add("one-shot latch")
+                elif at[1] not in logic.atoms(pc):
+                    # the same latch behind a witness: `if G: X = True` where G is raised, in this round, only at places where X
+                    # is known to be down, X is raised nowhere else and never lowered -- so G up means X was down when G went up,
+                    # and nothing raised X since
+                    others = [m for m in _assigns(fm, loop, X) if m is not n]
+                    for test_, pol_, b_ in fm.facts(n):
+                        if not (pol_ and isinstance(test_, ast.Name)) or others:
+                            continue
+                        G = test_.id
+                        gdefs = [m for m in fm.cfg.nodes if m.kind == "stmt" and isinstance(m.ast, ast.Assign) and len(m.ast.targets) == 1
+                                 and isinstance(m.ast.targets[0], ast.Name) and m.ast.targets[0].id == G]
+                        ups = [m for m in gdefs if not is_false(m.ast.value)]
+                        downs = [m for m in gdefs if is_false(m.ast.value)]
+                        hdr_ = fm.cfg.loop_header[loop]
+                        if not ups or not all(is_true(m.ast.value) for m in ups) or not any(m.id in ids for m in downs):
+                            continue
+                        try:
+                            known_down = all(at[1] in logic.atoms(fm.pc(m)) and logic.implies(fm.pc(m), logic.Not(at)) for m in ups)
+                        except logic.TooBig:
+                            known_down = False
+                        # G does not stay up from one round to the next
+                        tn_ = fm.cfg.nodes[next(iter(fm.cfg.g.predecessors(b_.id)))]
+                        fresh = all(m.id in ids for m in ups) and tn_.id not in fm.cfg.reach_avoiding(hdr_, downs)
+                        if known_down and fresh:
+                            out.add(n.id)
+                            kinds.add("one-shot latch")
         # P2: removal from a never-grown worklist of an element drawn from it
         for c in ast.walk(a) if not isinstance(a, (ast.FunctionDef, ast.ClassDef)) else []:
             if isinstance(c, ast.Call) and isinstance(c.func, ast.Attribute) and c.func.attr == "remove" \
